@@ -78,6 +78,7 @@ class Ctx:
         self.known = load_known()
         self.skipped = {}
         self.current_case = None
+        self.debug_logging = False
         self.harness_errors = []
 
     # ---- sharding ----
@@ -115,7 +116,7 @@ class Ctx:
         self.n_violations += 1
         self.viol_mech[mechanism] = self.viol_mech.get(mechanism, 0) + 1
         if self.viol_mech[mechanism] <= MAX_REPLAYS_PER_MECHANISM + 2:
-            self.violations.append({"mechanism": mechanism, "what": what,
+            self.violations.append({"mechanism": mechanism, "what": what, "debug_logging": self.debug_logging,
                                     "case": jsonable(case), "detail": jsonable(detail)})
 
     def inconclusive_because(self, reason: str) -> None:
